@@ -315,11 +315,37 @@ def ebpfDiscover (mro : List (List MapAttr)) : List MapAttr := simDiscoverGo mro
 def initMaps (found : List MapAttr) (progs : List Prog) : List (MapAttr × Nat) :=
   found.map fun a => (a, total (triples a.map progs))
 
+/-! ## the `__dict__`s outlive a layout
+
+`collect` stores each position in the `__dict__` of the program *instance* (`prog.__dict__[name] = position`),
+and the accessors read it from there (`fmt_addr`: `ebpf.__dict__[self.name]`).  An instance can be laid out
+more than once: a device that is put into another sync group, a subprogram handed to a second program, a
+group that is created again with other devices.  `Dicts` is what all `__dict__`s hold, latest entry first;
+`collect` writes every collected variable anew, whatever was there. -/
+
+abbrev Dicts := List (Key × Nat)
+
+def Dicts.get (σ : Dicts) (k : Key) : Option Nat := (σ.find? (·.1 = k)).map (·.2)
+
+/-- the loop `prog.__dict__[name] = position` over the placed collection -/
+def writeAll (σ : Dicts) : List (Triple × Nat) → Dicts
+  | [] => σ
+  | (t, p) :: r => writeAll ((t.key, p) :: σ) r
+
+/-- `map.collect(ebpf)` on instances that may have been laid out before -/
+def collectInto (σ : Dicts) (m : Nat) (progs : List Prog) : Dicts :=
+  writeAll σ (place 0 (sortDesc (triples m progs)))
+
+/-- `__init__` of an EBPF / SimulatedEBPF object: every discovered map is collected, in discovery order -/
+def collectAll (σ : Dicts) (found : List MapAttr) (progs : List Prog) : Dicts :=
+  found.foldl (fun acc a => collectInto acc a.map progs) σ
+
 /-! ## an object with its maps: state and operations (what the drivers run) -/
 
 structure St where
   progs : List Prog
   arrays : List (Nat × List UInt8)      -- map id → bytes, for the initialised maps
+  dicts : Dicts                         -- the positions in the instances' `__dict__`s
   deriving Repr, Inhabited
 
 def St.array (s : St) (m : Nat) : Option (List UInt8) := (s.arrays.find? (·.1 = m)).map (·.2)
@@ -328,15 +354,19 @@ def St.setArray (s : St) (m : Nat) (d : List UInt8) : St :=
   { s with arrays := s.arrays.map fun a => if a.1 = m then (m, d) else a }
 
 /-- `if not self.size: return` — a map nobody uses is never created -/
-def mkSt (found : List MapAttr) (progs : List Prog) : St :=
-  ⟨progs, ((initMaps found progs).filter fun (_, sz) => sz != 0).map fun (a, sz) => (a.map, zeros sz)⟩
+def mkStFrom (σ : Dicts) (found : List MapAttr) (progs : List Prog) : St :=
+  ⟨progs, ((initMaps found progs).filter fun (_, sz) => sz != 0).map fun (a, sz) => (a.map, zeros sz),
+   collectAll σ found progs⟩
+
+/-- the first object of a process: no instance has been laid out before -/
+def mkSt (found : List MapAttr) (progs : List Prog) : St := mkStFrom [] found progs
 
 /-- descriptor, map bytes and position behind `prog.name`; `KeyError` when not collected -/
 def St.locate (s : St) (pid name : Nat) : Except Err (Decl × List UInt8 × Nat) :=
   match (findProg s.progs pid).bind (resolve · name) with
   | none => .error .key
   | some d =>
-    match s.array d.map, positionOf (triples d.map s.progs) (pid, name) with
+    match s.array d.map, s.dicts.get (pid, name) with
     | some data, some pos => .ok (d, data, pos)
     | _, _ => .error .key
 
@@ -400,6 +430,67 @@ def St.runProgram (s : St) (ops : List Op) : St × Option Err :=
   match ops.foldlM (fun st op => st.step op) s with
   | .ok s' => (s', none)
   | .error e => (s, some e)
+
+/-! ## several objects in one process
+
+Objects (EBPF programs with their subprograms, sync groups with their devices) are created one after the
+other and stay in use.  `p.ebpf = self` makes every listed subprogram belong to the object created last
+with it; an access through an instance goes to the array of the object it belongs to, at the position its
+`__dict__` holds. -/
+
+structure Obj where
+  main : Nat                            -- identity of the EBPF object / sync group
+  progs : List Prog                     -- the object itself and its subprograms, as listed
+  arrays : List (Nat × List UInt8)
+  deriving Repr, Inhabited
+
+structure World where
+  dicts : Dicts
+  owner : List (Nat × Nat)              -- instance ↦ the object it belongs to, latest first
+  objs : List Obj                       -- latest first
+  deriving Repr, Inhabited
+
+def World.empty : World := ⟨[], [], []⟩
+
+/-- a new object: its maps are discovered and collected, every listed instance now belongs to it -/
+def World.create (w : World) (main : Nat) (found : List MapAttr) (progs : List Prog) : World :=
+  ⟨(mkStFrom w.dicts found progs).dicts,
+   progs.map (fun p => (p.id, main)) ++ w.owner,
+   ⟨main, progs, (mkStFrom w.dicts found progs).arrays⟩ :: w.objs⟩
+
+def World.objOf (w : World) (pid : Nat) : Option Obj :=
+  (w.owner.find? (·.1 = pid)).bind fun o => w.objs.find? (·.main = o.2)
+
+/-- the object an instance belongs to, as the accessors see it -/
+def World.view (w : World) (o : Obj) : St := ⟨o.progs, o.arrays, w.dicts⟩
+
+def World.putArrays (w : World) (main : Nat) (arrays : List (Nat × List UInt8)) : World :=
+  { w with objs := w.objs.map fun x => if x.main = main then { x with arrays := arrays } else x }
+
+def World.setWith (w : World) (pid name : Nat) (vs : List Int) : Option Obj → Except Err World
+  | none => .error .key
+  | some o => ((w.view o).step (.pySet pid name vs)).map fun s' => w.putArrays o.main s'.arrays
+
+/-- `instance.name = value` from Python -/
+def World.pySet (w : World) (pid name : Nat) (vs : List Int) : Except Err World :=
+  w.setWith pid name vs (w.objOf pid)
+
+def World.getWith (w : World) (pid name : Nat) : Option Obj → Except Err (List Int)
+  | none => .error .key
+  | some o => (w.view o).pyGet pid name
+
+/-- `instance.name` from Python -/
+def World.pyGet (w : World) (pid name : Nat) : Except Err (List Int) := w.getWith pid name (w.objOf pid)
+
+/-- only creations touch the `__dict__`s -/
+structure NewObj where
+  found : List MapAttr
+  progs : List Prog
+  deriving Repr, Inhabited
+
+def runNews (σ : Dicts) : List NewObj → Dicts
+  | [] => σ
+  | o :: os => runNews (collectAll σ o.found o.progs) os
 
 /-! ## `DeviceVar.__get__/__set__`: dispatch on the device's sync group -/
 
